@@ -281,7 +281,8 @@ def piece_meshfields(G, piece, dim=3):
     for t in piece["types"]:
         rows = [[loc[p] for p in G["cells"][c][1]] for c in piece["cells"] if G["cells"][c][0] == t]
         conn.append((CellType(t), np.array(rows, dtype=np.int64)))
-    pd = {n: np_rows(vt, nc, sc, [rows[g] for g in piece["points"]]) for n, vt, nc, sc, rows in G["pf"]}
+    pd = {n: np_rows(vt, nc, sc, [rows[g] for g in piece["points"]]) for n, vt, nc, sc, rows in G["pf"]
+          if n not in piece.get("drop_pf", ())}
     cd = {n: [np_rows(vt, nc, sc, [rows[c] for c in piece["cells"] if G["cells"][c][0] == t]) for t in piece["types"]]
           for n, vt, nc, sc, rows in G["cf"]}
     return MeshFields(Mesh(pts, conn), pd, cd)
@@ -421,7 +422,8 @@ def model_piece(G, piece, dim=3):
         cells.append(f"({cnat(t)}, {rows})")
         per = [f"({cnat(i)}, {clist([zrow(cfm[n][c]) for c in cs], '(list Z)')})" for i, n in enumerate(cnames)]
         cdata.append(f"({cnat(t)}, {clist(per, '(nat * list (list Z))')})")
-    pd = [f"({cnat(i)}, {clist([zrow(pfm[n][g]) for g in piece['points']], '(list Z)')})" for i, n in enumerate(pnames)]
+    pd = [f"({cnat(i)}, {clist([zrow(pfm[n][g]) for g in piece['points']], '(list Z)')})" for i, n in enumerate(pnames)
+          if n not in piece.get("drop_pf", ())]
     return (f"(mk {P} {clist(cells, '(nat * list (list nat))')} {clist(pd, '(nat * list (list Z))')} "
             f"{clist(cdata, '(nat * list (nat * list (list Z)))')})")
 
@@ -519,6 +521,45 @@ def stream_merge(ctx, n):
             ctx.violation("E2", f"merge(): model != implementation ({d2})", case, found_input=False, impl=im, model=mo)
         ctx.traces_validated += 1
         ctx.tie("T2 merge() vs Model.Merge.merge_all")
+
+
+def stream_merge_partial(ctx, n):
+    """merge() of pieces whose point-field sets differ (a field missing on one side is zero-filled there): model against
+    implementation only — the statement's "unpartitioned data set" is not defined for such pieces"""
+    rng = ctx.rng
+    cases = []
+    for _ in range(n):
+        G = gen_global(rng)
+        if not G["pf"]:
+            continue
+        part = gen_partition(rng, G)
+        if len(part["pieces"]) < 2:
+            continue
+        names = [nm for nm, *_ in G["pf"]]
+        for piece in part["pieces"]:
+            piece["drop_pf"] = sorted(nm for nm in names if rng.random() < 0.35)
+        if not any(p["drop_pf"] for p in part["pieces"]):
+            part["pieces"][rng.randrange(len(part["pieces"]))]["drop_pf"] = [rng.choice(names)]
+        dim = 3
+        cases.append((G, part, dim))
+    impls = [run_merge(G, part, dim) for G, part, dim in cases]
+    vals = ctx.coq_eval(HEADER, [model_expr(G, part, dim) for G, part, dim in cases], name="c06mergepartial", shard=60)
+    for (G, part, dim), im, val in zip(cases, impls, vals):
+        case = canon_case(G, part, stream="merge_partial_fields", dim=dim)
+        ctx.case(case, True, sample={"mesh": G["kind"], "dropped": [p["drop_pf"] for p in part["pieces"]]})
+        ctx.count("merge, differing point-field sets:k=%d" % len(part["pieces"]))
+        mo = decode_model(val, G)
+        ncomp = {nm: nc for nm, _, nc, _, _ in G["pf"]}
+        mo["pf"] = {nm: [r if r else [0] * ncomp[nm] for r in rows] for nm, rows in mo["pf"].items()}   # the model's zero row is []
+        d2 = model_vs_impl(mo, im)
+        if d2 is not None:
+            if "error" in im:
+                ctx.violation("E4", f"merge() of pieces with differing point-field sets raised {im['error'][:90]}", case, impl=im, model=mo)
+            else:
+                ctx.violation("E2", f"merge() with differing point-field sets: model != implementation ({d2})", case,
+                              found_input=False, impl=im, model=mo)
+        ctx.traces_validated += 1
+        ctx.tie("T2 merge() with differing point-field sets vs Model.Merge.merge_all")
 
 
 # ================================================================================================
@@ -1245,6 +1286,7 @@ def _run(ctx):
     quick = ctx.tier == "quick"
     corpus_stream(ctx)
     stream_merge(ctx, 800 if quick else 30000)
+    stream_merge_partial(ctx, 60 if ctx.tier == 'quick' else 1500)
     stream_pfiles(ctx, 150 if quick else 3000, 50 if quick else 1000)
     refinement_ties(ctx, 300 if quick else 5000)
     stream_smerge(ctx, 3 if quick else 4)
@@ -1280,6 +1322,10 @@ def replay(pid, rec):
         print("merge(): pieces", [p["cells"] for p in c["part"]["pieces"]], "pieces without new points:", nofresh_pieces(c["part"]))
         print("difference to the unpartitioned mesh:", diff)
         return diff is None
+    if st == "merge_partial_fields":
+        im = run_merge(c["G"], c["part"], c["dim"])
+        print("merge() of pieces with differing point-field sets:", im.get("error", "no exception"))
+        return "error" not in im
     if st in ("pvtu", "pvtp"):
         import tempfile
         d = tempfile.mkdtemp(dir=str(lib.WORK))
